@@ -4,7 +4,7 @@
    N, positive, Z, nat stay the extracted inductive datatypes. *)
 From Coq Require Extraction.
 From Coq Require Import ExtrOcamlBasic.
-From PL Require Import Model.Base Model.Order Model.Queue Model.Level Model.Conc Model.ConcQ Spec.MatchSpec Spec.Iface Spec.Priority Spec.QueueSpec Spec.Judges Spec.ConcJudges.
+From PL Require Import Model.Base Model.Order Model.Queue Model.Level Model.Helpers Model.Conc Model.ConcQ Spec.MatchSpec Spec.Iface Spec.Priority Spec.QueueSpec Spec.Judges Spec.ConcJudges.
 
 Extraction Language OCaml.
 
@@ -22,4 +22,12 @@ Extraction "../modelrun/model.ml"
   qshared_of_queue queue_of_qshared qthread_init qaccept qcstep qquiescent
   agg_b listing_ok_b accounting_b
   exhaust_b stats_b stats_rebuild_b update_ok_b update_counts_b
-  range_b handout_b cells_b final_cells_b drained_b ids.
+  range_b handout_b cells_b final_cells_b drained_b ids
+  (* Model/Helpers.v: the pure helper API (driver command group `H` / `HR`) *)
+  opposite tif_of oid_from_u64 oid_nil oid_is_ulid tif_is_immediate tif_has_expiry tif_is_expired
+  order_is_immediate order_is_fill_or_kill order_is_post_only wrq_applies refresh_iceberg
+  tx_maker_side tx_total_value tx_total_value_ovf
+  executed_quantity_w executed_quantity_ovf executed_value executed_value_ovf
+  txl_from_vec txl_into_vec txl_len txl_is_empty
+  level_eqb level_cmp level_ltb level_leb level_total_quantity_w level_total_quantity_ovf
+  stats_reset record_execution_ovf record_execution_partial stats_run stats_run_debug.
